@@ -568,7 +568,6 @@ func (u *Unit) pureViolation(s *State, why string) {
 	if s != nil && u.fc != nil && u.fc.Opts["pure-label"] != "" {
 		label := u.fc.Opts["pure-label"]
 		u.oblige(s, labelWithFn(label, u.fnShort(u.fn)), propsOf(label), "write-set", "false", token.NoPos)
-		s.pc = s.pc[:len(s.pc)-1] // do not assume false afterwards
 		u.note("write outside the declared write set: %s", why)
 		return
 	}
